@@ -32,6 +32,12 @@ def cases(tier, seed):
             yield {"kind": "mdgen", "items": [[gen.gen_name(r, used, odd=0.2), gen.gen_md_value(r, 0, r.choice([1, 2, 4]))]
                                                for _ in range(r.choice([1, 3, 6]))]}
             continue
+        if r.random() < 0.12:
+            # a bare Metadata saved through the public entry point: read returns it bare, and it is saved again as it is
+            used = set()
+            yield {"kind": "mdfile", "name": gen.gen_name(r, set(), odd=0.2),
+                   "items": [[gen.gen_name(r, used, odd=0.2), gen.gen_md_value(r, 0, r.choice([1, 2]))] for _ in range(r.choice([1, 2, 4]))]}
+            continue
         t = gen.gen_tree(r, rootname=gen.gen_name(r, set(), odd=0.2), maxdepth=r.choice([1, 2, 3]), md=0.7)
         # richer arrays: calibrations and stacks
         def enrich(rec):
@@ -135,6 +141,10 @@ def run_both(drv, case):
         if case["kind"] == "legacy":
             c17.build_file(case["legacy"], p1)
             kw = {}
+        elif case["kind"] == "mdfile":
+            with common.quiet():
+                emdfile.save(p1, emdfile.Metadata(name=case["name"], data={k: gen.build_md_value(v) for k, v in case["items"]}))
+            kw = {}
         else:
             root = build_tree(case["tree"])
             with common.quiet():
@@ -223,7 +233,7 @@ def known_match(case, fail, finding):
 
 
 def nontrivial(case):
-    return case["kind"] in ("legacy", "mdgen") or gen.tree_size(case["tree"]) >= 2
+    return case["kind"] in ("legacy", "mdgen", "mdfile") or gen.tree_size(case["tree"]) >= 2
 
 
 def classify(case, obs):
